@@ -86,6 +86,11 @@ type node struct {
 	ledger    *blockchain.Ledger
 	discon    []*types.Block // ETBlockDisconnected events seen since last drain
 	connected []*types.Block
+	// C30: the last irreversible height as it stood before the current
+	// reorganisation began (refreshed at every connect), and the blocks seen
+	// detached at or below it
+	lihRef     uint32
+	lihCrossed []string
 }
 
 // baseConfig is the regnet configuration with instant proof of work and the
@@ -217,10 +222,14 @@ func newNode(dir string, cfg *config.Configuration, minerAddr string, v2active u
 				n.pool.CleanSubmittedTransactions(b)
 				n.chain.UTXOCache.CleanTxCache()
 				n.connected = append(n.connected, b)
+				n.lihRef = n.arbiters.State.GetLastIrreversibleHeight()
 			}
 		case events.ETBlockDisconnected:
 			if b, ok := e.Data.(*types.Block); ok {
 				n.discon = append(n.discon, b)
+				if n.lihRef > 0 && b.Height <= n.lihRef {
+					n.lihCrossed = append(n.lihCrossed, fmt.Sprintf("block at height %d detached while the last irreversible height was %d", b.Height, n.lihRef))
+				}
 				for _, tx := range b.Transactions[1:] {
 					if err := n.pool.MaybeAcceptTransaction(tx); err != nil {
 						n.pool.RemoveTransaction(tx)
